@@ -327,8 +327,15 @@ class Ctx:
                   phases=[Phase.explicit, Phase.generate, Phase.shrink] if shrink else [Phase.explicit, Phase.generate])
         @given(strategy)
         def test(case):
+            t_case = time.time()
             try:
                 check(self, case)
+                dt = time.time() - t_case
+                self.stats.maximum("slowest_case_s", round(dt, 2))
+                if dt > 10 and len(self.stats.extra) < 200:
+                    self.stats.count("cases_slower_than_10s")
+                    if os.environ.get("VERIF_DEBUG_SLOW"):
+                        sys.stderr.write("SLOW %.1fs worker=%d case=%s\n" % (dt, self.worker, json.dumps(case, default=str)))
             except Inconclusive:
                 return
             except Violation as v:
@@ -378,6 +385,7 @@ def _worker(args):
     mod = importlib.import_module(modname)
     ctx = Ctx(prop_id, tier, seed, worker, nworkers, build_dir, known)
     result = {"worker": worker, "violations": [], "error": None}
+    t_worker = time.time()
     try:
         vs = mod.run_worker(ctx) or []
         for v in vs:
@@ -403,6 +411,8 @@ def _worker(args):
         result["error"] = traceback.format_exc()
     finally:
         st = ctx.stats
+        st.maximum("slowest_worker_s", round(time.time() - t_worker, 1))
+        st.extra["worker_%02d_s" % worker] = int(time.time() - t_worker)
         result["stats"] = {"evaluations": st.evaluations, "nontrivial": list(st.nontrivial), "labels": st.labels,
                            "samples": st.samples, "extra": st.extra, "maxima": st.maxima,
                            "ubsan": ctx.driver.ubsan_sites, "crashes": ctx.driver.crashes}
